@@ -24,7 +24,7 @@ CFG = dict(
 
 def _classify(line):
     # IpTrie.DeleteKey(cidr, key) deletes the CIDR's only key even when it is a different key
-    if "iplpm:non-member-delete-of-single-key-cidr" in line.get("tags", []):
+    if "iplpm:non-member-delete-of-single-key-cidr" in line.get("tags") or []:
         return "iplpm-deletekey-nonmember-single"
     return None
 
